@@ -113,6 +113,29 @@ impl NetCtx {
     #[verifier::external_body]
     pub fn send_message(&self, p: ProtocolId, peer: PeerIndex, m: NetBytes) -> (r: Result<(), NetError>) { unimplemented!() }
 }
+impl LightClientMessage { #[verifier::external_body] pub fn as_bytes(&self) -> (r: NetBytes) { unimplemented!() } }
+pub const GET_BLOCKS_PROOF_LIMIT: usize = 1000;            // protocols/mod.rs
+pub const GET_TRANSACTIONS_PROOF_LIMIT: usize = 1000;      // protocols/mod.rs
+// v.iter().find(f): the first element on which f holds
+#[verifier::external_body]
+pub fn vf_find<'a, T, F: Fn(&&T) -> bool>(v: &'a Vec<T>, f: F) -> (r: Option<&'a T>)
+    requires forall|i: int| 0 <= i < v@.len() ==> call_requires(f, (&&#[trigger] v@[i],)),
+    ensures r.is_some() ==> call_ensures(f, (&r.unwrap(),), true) { unimplemented!() }
+// builders of the two requests (network plumbing)
+pub struct GetBlocksProofBuilder { pub x: u8 }
+pub struct GetTransactionsProofBuilder { pub x: u8 }
+impl GetBlocksProof { #[verifier::external_body] pub fn new_builder() -> (r: GetBlocksProofBuilder) { unimplemented!() } }
+impl GetBlocksProofBuilder {
+    #[verifier::external_body] pub fn block_hashes(self, v: Byte32VecE) -> (r: GetBlocksProofBuilder) { unimplemented!() }
+    #[verifier::external_body] pub fn last_hash(self, h: Byte32) -> (r: GetBlocksProofBuilder) { unimplemented!() }
+    #[verifier::external_body] pub fn build(self) -> (r: GetBlocksProof) { unimplemented!() }
+}
+impl GetTransactionsProof { #[verifier::external_body] pub fn new_builder() -> (r: GetTransactionsProofBuilder) { unimplemented!() } }
+impl GetTransactionsProofBuilder {
+    #[verifier::external_body] pub fn tx_hashes(self, v: Byte32VecE) -> (r: GetTransactionsProofBuilder) { unimplemented!() }
+    #[verifier::external_body] pub fn last_hash(self, h: Byte32) -> (r: GetTransactionsProofBuilder) { unimplemented!() }
+    #[verifier::external_body] pub fn build(self) -> (r: GetTransactionsProof) { unimplemented!() }
+}
 // X.choose(&mut rand::thread_rng()): some element of a non-empty vector (assumed rand semantics)
 #[verifier::external_body]
 pub fn vf_choose<'a, T>(v: &'a [T]) -> (r: Option<&'a T>)
